@@ -328,6 +328,29 @@ fn bad_test_body(
     }
 }
 
+// The second rule maps `c` to `b`; it must not be merged into the anonymous
+// lookup of the first rule (which maps `c` to `x`) and overwrite that entry.
+#[test]
+fn inline_single_sub_with_class_target_checks_every_glyph() {
+    use write_fonts::tables::gsub::SubstitutionLookup;
+
+    let compilation = compile_fea(
+        "\
+feature test {
+    sub c' x by x;
+    sub [x c]' c by b;
+} test;
+",
+        "inline_single_sub_class_target",
+    );
+    let gsub = compilation.gsub.as_ref().unwrap();
+    // the contextual lookup and one anonymous lookup per rule
+    assert_eq!(gsub.lookup_list.lookups.len(), 3);
+    for lookup in &gsub.lookup_list.lookups[1..] {
+        assert!(matches!(&**lookup, SubstitutionLookup::Single(_)));
+    }
+}
+
 /// Similar to compile_fea but with `compile_debg(true)` and return
 /// the parsed Debg JSON.
 fn compile_debg(fea: &str, test_name: &str) -> Option<serde_json::Value> {
